@@ -680,6 +680,44 @@ def gen_single_cases(rng, reps):
     return cases
 
 
+ZEROABLE = {"k1", "k", "angle", "tilt", "phase", "voltage", "misalignment", "dipole_e1", "dipole_e2", "rbend_e1", "rbend_e2"}
+
+
+def gen_one_zero_cases(rng):
+    """round 7 (seeded change C05-8): every class x method x beam type with ONE differentiable parameter exactly zero while all the
+    others are live (an active cavity exactly on crest, a powered magnet with tilt / one misalignment component / one edge angle
+    exactly 0), differentiated with respect to THAT parameter: a branch of the form `if torch.any(p != 0)` around a term that
+    vanishes at p = 0 keeps every value and loses the derivative.  The all-zero point of gen_single_cases takes other branches
+    (V = 0, angle = 0) and random points hit an exact zero of one parameter only by chance."""
+    cases = []
+    for cls in PARAMS:
+        for method in methods_of(cls):
+            for (p, idx, sc, hr) in PARAMS[cls]:
+                if p not in ZEROABLE:
+                    continue
+                kw = gen_kw(rng, cls, method, False)
+                if p not in kw:
+                    continue
+                if cls == "Cavity":
+                    kw["phase"] = rng.choice([30.0, -20.0])
+                if cls in ("Quadrupole", "Solenoid", "TransverseDeflectingCavity"):
+                    kw["misalignment"] = [1e-3, -5e-4]
+                if "tilt" in kw:
+                    kw["tilt"] = rng.choice([0.1, -0.2])
+                if idx is None:
+                    kw[p] = 0.0
+                else:
+                    v = list(kw[p])
+                    v[idx] = 0.0
+                    kw[p] = v
+                for btype in ("particle", "parameter"):
+                    if btype == "parameter" and (method == "bmadx" or cls == "SpaceChargeKick"):
+                        continue
+                    cases.append({"lattice": [{"cls": cls, "kw": kw}], "beam": gen_beam(rng, btype), "wrt": ["elem", 0, p, idx],
+                                  "segment": False, "zero_point": False, "one_zero": p})
+    return cases
+
+
 SEG_CLASSES = ["Drift", "Quadrupole", "Dipole", "Solenoid", "HorizontalCorrector", "VerticalCorrector", "Cavity", "Undulator", "RBend"]
 
 
@@ -1584,7 +1622,8 @@ def main(tier, replay=None):
 
     run.cov["findings_listed_known"] = sorted(known_ids())
     cases = gen_single_cases(run.rng, 12 if thorough else 1) + gen_segment_cases(run.rng, 800 if thorough else 40) \
-        + gen_beam_param_cases(run.rng, 400 if thorough else 30) + gen_degenerate_cases(run.rng, 12 if thorough else 2)
+        + gen_beam_param_cases(run.rng, 400 if thorough else 30) + gen_degenerate_cases(run.rng, 12 if thorough else 2) \
+        + gen_one_zero_cases(run.rng)
     for _ in range(4 if thorough else 1):
         cases += gen_fringe_exit_cases(run.rng)
     cases += gen_si_beam_cases(run.rng, 140 if thorough else 14)
